@@ -238,13 +238,16 @@ func VerifHistoryPair() {
 		vc15Predecessor(k1)
 	}
 
-	resB, _ := vc15Operation("op2.p", vc15Succ[k2], p, nil)
-	vc15SameResult("reloaded", resA, resB)
+	// first the script loaded before the predecessor ran, with nothing in between: loading
+	// takes a pooled task through the check pass, which resets more than a run does and can
+	// hide what the predecessor left behind
 	if sA != nil {
 		resC := &vc15Result{loaded: true}
 		vc15RunOn(sA, p, resC, nil)
 		vc15SameResult("rerun", resA, resC)
 	}
+	resB, _ := vc15Operation("op2.p", vc15Succ[k2], p, nil)
+	vc15SameResult("reloaded", resA, resB)
 }
 
 func vc15Predecessor(k1 int) {
